@@ -196,6 +196,7 @@ func init() {
 		if err := multiSessionCheck(tier, seed, res); err != nil {
 			return err
 		}
+		collectRaceReports(res, "race")
 		return compareProjection(cases, res)
 	}
 }
